@@ -17,9 +17,9 @@ PROP = dict(
             "archiver's invariant). Third-party decoders (x/net/html via goquery, encoding/json, encoding/xml, grafov/m3u8, pdfcpu, mimetype, "
             "xurls, fasturl, ada) are NOT modelled: for them the check is structure-aware fuzzing in isolated child processes (the `fuzz` leg), "
             "which is a search and not a proof - a silent run only says that no crasher was among this run's generated inputs. "
-            "That search found six third-party defects on the unchanged tree (known-findings.txt: m3u8 nil dereference, pdfcpu makeslice "
-            "panic, pdfcpu stack exhaustion, pdfcpu 93 GiB allocation, pdfcpu exponential parse, x/net/html quadratic parse); the first two "
-            "are repaired by fixes/C10-decoder-panic-recover.diff, the others are not repairable by a small patch inside Zeno.",
+            "That search found six third-party defects (known-findings.txt): the m3u8 nil dereference and the pdfcpu makeslice panic are fixed "
+            "at Zeno's call sites (e1baacb); pdfcpu stack exhaustion on a cyclic page tree, pdfcpu 93 GiB allocation, pdfcpu exponential "
+            "parse time and x/net/html quadratic parse time remain as known findings - not repairable by a small patch inside Zeno.",
     assumptions=[
         "the byte-level models of strings.IndexByte/LastIndexByte/HasPrefix/Contains/Split/SplitN/SplitAfterN/Trim/TrimSpace and of the rune "
         "stepping of `range` over a string say what the Go library does (total functions; compared with the real library by the scan driver on every run)",
